@@ -91,6 +91,15 @@ CHECKS = {
              'documented rules; each state is replayed: the produced text is searched for omitted member names and sentinels and '
              'compared with the exact predicted document, and strict decoding per caller is compared with the predicted outcome.',
         ref='3.5, 4 (C13)'),
+    'C20': dict(
+        technique='TLA+ spec StoneWhitelist (declarative Closure vs operational depth-first traversal with seen set) model-checked by TLC; every state replayed through specs_to_ir(route_whitelist_filter) and python_types',
+        text='A skeleton spec of 10 types, an alias and 4 routes in two namespaces has 14 individually switchable dependency edges '
+             'covering every edge kind of the property. TLC explores edge sets (quick: <=2 or >=12 edges on; thorough: <=4 or >=10) x 39 '
+             'whitelists (route subsets incl. *, data-type subsets, both namespaces) and checks ContainsSeeds, Closed, Minimal and OpAgrees '
+             '(the traversal of the implementation computes the closure). Each state is replayed: retained types and routes must equal '
+             'the closure, no retained field/parent/subtype list/alias target/route signature may point to a removed type (real object '
+             'graph), and the python_types output of the filtered Api must import.',
+        ref='3.10, 4 (C20)'),
 }
 
 NOT_YET = 'check not built yet in this round (work in progress; see DESIGN.md section 9)'
